@@ -13,10 +13,17 @@ Local Open Scope N_scope.
    not unpack, event of another kind, transaction that does not pay the bridge, ...) *)
 Inductive hkind := KErc20 | KErc721 | KErc1155 | KGeneric | KSub | KBtc | KNone.
 
-(* what the real handler did on the deposit alone *)
+(* what the real handler did on the deposit alone; MOk: the destination of the message.  i_fp numbers
+   the CONTENT of that message (source, destination, type, resource id, transfer type, payload,
+   metadata - everything but the nonce, the id string and the timestamp) within the case: equal
+   contents, equal number; 0: no message.  The messages observed on the channel are numbered by the
+   same table, so "its message" of a deposit is the message its handler yields for it alone. *)
 Inductive measured := MOk (dest : N) | MErr | MPanic | MSkip.
 
-Record item := mkItem { i_kind : hkind; i_dest : N; i_data : string; i_hr : string; i_meas : measured; i_st : status }.
+(* i_nonce: the deposit nonce the event carries (BTC: the transaction, whose hash and the block number
+   determine the nonce).  Deposits of one case may share it. *)
+Record item := mkItem { i_kind : hkind; i_dest : N; i_nonce : N; i_data : string; i_hr : string;
+                        i_meas : measured; i_fp : N; i_st : status }.
 
 Definition hx (s : string) : bytes := bytes_of_Ns (unhex s).
 
@@ -41,35 +48,29 @@ Definition item_dest (it : item) : N :=
   | _ => i_dest it
   end.
 
-Definition to_deposit (nonce : N) (it : item) : Model.C06.deposit * status :=
-  (if item_wf it then Good (item_dest it, nonce)
+Definition to_deposit (it : item) : Model.C06.deposit * status :=
+  (if item_wf it then Good (item_dest it, (i_nonce it, i_fp it))
    else Bad (match i_meas it with
-             | MOk d => Model.C06.Ok (d, nonce) | MErr => Model.C06.Err | MPanic => Model.C06.Panic | MSkip => Skip
+             | MOk d => Model.C06.Ok (d, (i_nonce it, i_fp it))
+             | MErr => Model.C06.Err | MPanic => Model.C06.Panic | MSkip => Skip
              end),
    i_st it).
 
 Inductive ievent := ISkip (n : N) | IDeps (l : list item).    (* ISkip n: a skipped event of n deposits *)
 
-(* nonces are the 1-based positions of the deposits in the whole case *)
-Fixpoint number (k : N) (l : list item) : list (Model.C06.deposit * status) :=
-  match l with [] => [] | it :: r => to_deposit k it :: number (k + 1) r end.
+Definition to_events (es : list ievent) : list revent :=
+  map (fun e => match e with ISkip _ => RSkip | IDeps l => RDeps (map to_deposit l) end) es.
 
-Fixpoint to_events (k : N) (es : list ievent) : list revent :=
-  match es with
-  | [] => []
-  | ISkip n :: r => RSkip :: to_events (k + n) r
-  | IDeps l :: r => RDeps (number k l) :: to_events (k + N.of_nat (List.length l)) r
-  end.
-
-(* impl: crashed (child process died / timed out - the child runs the real HandleEvents AND feeds what
+(* impl: crashed (child process died), hung (the child did not answer within its deadline: processing
+   the range does not terminate) - the child runs the real HandleEvents AND feeds what
    arrives on the message channel to sygma-core's real Relayer.Start/route over fake destination chains),
-   failed (an error was returned), the groups as (destination, nonces) sorted by destination = what each
-   destination chain received through route; sent = the batches as they arrived on the message channel,
-   each message as Some (its destination, nonce) or None (a nil *message.Message), sorted. *)
-Inductive case := Case (p : path) (ies : list ievent) (crashed failed : bool) (impl : list (N * list N))
-                       (sent : list (list (option (N * N)))).
+   failed (an error was returned), the groups as (destination, (nonce, content)s) sorted by destination =
+   what each destination chain received through route; sent = the batches as they arrived on the message
+   channel, each message as Some (its destination, (nonce, content)) or None (a nil *message.Message), sorted. *)
+Inductive case := Case (p : path) (ies : list ievent) (crashed hung failed : bool) (impl : list (N * list (N * N)))
+                       (sent : list (list (option (N * (N * N))))).
 
-Definition to_groups (l : list (N * list N)) : groups :=
+Definition to_groups (l : list (N * list (N * N))) : groups :=
   map (fun kn => (fst kn, map (fun n => (fst kn, n)) (snd kn))) l.
 
 Fixpoint msgs_eqb (a b : list msg) : bool :=
@@ -83,7 +84,7 @@ Definition groups_eqb (a b : groups) : bool :=
   forallb (fun kl => msgs_eqb (get (fst kl) b) (snd kl)) a &&
   forallb (fun kl => msgs_eqb (get (fst kl) a) (snd kl)) b.
 
-Definition impl_result (failed : bool) (impl : list (N * list N)) : result :=
+Definition impl_result (failed : bool) (impl : list (N * list (N * N))) : result :=
   if failed then Failed else Done (to_groups impl).
 
 Definition omsg_eqb (a b : option msg) : bool :=
@@ -104,9 +105,9 @@ Definition sent_eqb (g : groups) (sent : list batch) : bool :=
 
 Definition agree (c : case) : bool :=
   match c with
-  | Case p ies crashed failed impl sent =>
-      let es := to_events 1 ies in
-      negb crashed &&
+  | Case p ies crashed hung failed impl sent =>
+      let es := to_events ies in
+      negb crashed && negb hung &&
       match run p es, impl_result failed impl with
       | Done g, Done g' => groups_eqb g g' && sent_eqb g sent
       | Failed, Failed => true
@@ -116,17 +117,25 @@ Definition agree (c : case) : bool :=
 
 Definition judge (c : case) : bool :=
   match c with
-  | Case p ies crashed failed impl sent =>
-      Model.C06.spec_ok p (to_events 1 ies) crashed (impl_result failed impl) && sent_ok sent
+  | Case p ies crashed hung failed impl sent =>
+      Model.C06.spec_ok p (to_events ies) (crashed || hung) (impl_result failed impl) && sent_ok sent
   end.
 
 Definition is_bad (x : Model.C06.deposit * status) : bool := match fst x with Bad _ => true | _ => false end.
 
-(* branch tag: path x (some poisoned deposit present?) x (some message owed?) *)
+(* two deposits of the case carry the same nonce *)
+Fixpoint shared_nonce (l : list N) : bool :=
+  match l with [] => false | n :: r => existsb (N.eqb n) r || shared_nonce r end.
+
+Definition item_nonces (ies : list ievent) : list N :=
+  flat_map (fun e => match e with ISkip _ => [] | IDeps l => map i_nonce l end) ies.
+
+(* branch tag: path x (some poisoned deposit present?) x (some message owed?) x (deposits share a nonce?) *)
 Definition tag (c : case) : N :=
   match c with
-  | Case p ies _ _ _ _ =>
-      let es := to_events 1 ies in
+  | Case p ies _ _ _ _ _ =>
+      let es := to_events ies in
+      (if shared_nonce (item_nonces ies) then 20 else 0) +
       (match p with EvmDeposits => 0 | SubDeposits => 4 | BtcDeposits => 8 | EvmRetryV1 => 12 | SubRetry => 16 end)
       + (if existsb is_bad (flat es) then 2 else 0)
       + (match filter_map (owed p) (flat es) with [] => 0 | _ => 1 end)
